@@ -107,7 +107,7 @@ def tested_before_success(prog, f, field_pat, prop_name):
 
 
 def run(prog, rep):
-    chk = [f for f in prog.fns.values() if f.file == "src/checker.rs" and f.body is not None]
+    chk = [f for f in prog.shape_fns() if f.file == "src/checker.rs" and f.body is not None]
     # ---- E8.c catalogue
     rep.rule("E8.c", "every CheckError variant is constructed at a live site of the checker")
     variants = [v["name"] for v in prog.adts["tsg::checker::CheckError"]["variants"]]
@@ -201,7 +201,7 @@ def run(prog, rep):
                     else:
                         rep.violation("E3.l", "%s :: non-local source accepted" % f.id, f.loc(), "the non-local edge of `%s` does not return ExpectedLocalValue" % c[:120])
     eager = set()
-    for f in prog.fns.values():
+    for f in prog.shape_fns():
         if f.body is None or not f.file.startswith("src/execution/lazy"):
             continue
         tr = None
@@ -241,12 +241,12 @@ def run(prog, rep):
               "checker requires local sources for %s but the lazy interpreter evaluates eagerly %s" % (sorted(required - eager) or sorted(required), sorted(eager - required) or sorted(eager)))
     # forcing only through evaluate_eager during the execute phase
     cg = prog.callgraph()
-    forcing = [f.id for f in prog.fns.values() if (f.self_path == "tsg::execution::lazy::values::LazyValue" and f.name.startswith("evaluate")) or
+    forcing = [f.id for f in prog.shape_fns() if (f.self_path == "tsg::execution::lazy::values::LazyValue" and f.name.startswith("evaluate")) or
                (f.self_path == "tsg::execution::lazy::store::Thunk" and f.name == "force") or
                (f.self_path == "tsg::execution::lazy::store::LazyScopedVariables" and f.name in ("evaluate", "force", "evaluate_all")) or
                (f.self_path == "tsg::execution::lazy::store::LazyStore" and f.name.startswith("evaluate"))]
-    ee = [f.id for f in prog.fns.values() if f.name == "evaluate_eager"]
-    roots = [f.id for f in prog.fns.values() if f.name == "execute_lazy" and f.self_path == "tsg::ast::Stanza"]
+    ee = [f.id for f in prog.shape_fns() if f.name == "evaluate_eager"]
+    roots = [f.id for f in prog.shape_fns() if f.name == "execute_lazy" and f.self_path == "tsg::ast::Stanza"]
     reach = cg.reachable_from(roots, stop=set(ee))
     bad = sorted(set(forcing) & reach)
     rep.check(not bad and len(forcing) >= 6 and len(ee) == 1 and len(roots) == 1, "E3.l", "forcing only via evaluate_eager", "",
@@ -394,7 +394,7 @@ def run(prog, rep):
     e5.variable_map_shape(prog, rep, "E5.var")
     e5.mutability_flags(prog, rep)
     rep.rule("E2.d", "no VariableError of the scope maps is dropped or replaced on the way to the checker")
-    nv, _k = e2.run_e2d(prog, rep, [f for f in prog.fns.values() if f.file == "src/variables.rs"], e2.ABSORB)
+    nv, _k = e2.run_e2d(prog, rep, [f for f in prog.shape_fns() if f.file == "src/variables.rs"], e2.ABSORB)
     rep.floor("E2.d", nv, 1, "fallible calls in variables.rs")
     # ---- X: index spaces (the unused-capture computation compares capture indices)
     from . import C03
